@@ -68,12 +68,13 @@ class Ctx:
 
     cur = None
     query_timeout_ms = 60000
+    solver_factory = staticmethod(lambda: z3.Solver())
 
     def __init__(self, prefix, stats):
         self.prefix = list(prefix)
         self.trace = []          # (decision, alternatives|None)
         self.pc = []
-        self.solver = z3.Solver()
+        self.solver = Ctx.solver_factory()
         self.solver.set("timeout", self.query_timeout_ms)
         self.stats = stats
         self.inputs = {}         # name -> z3 const
@@ -337,6 +338,12 @@ class Ctx:
         self.inputs[name] = c
         return SReal(c)
 
+    def fp(self, name, sort=None):
+        from .fp import SFP
+        c = z3.FP(name, sort or SFP.SORT)
+        self.inputs[name] = c
+        return SFP(c)
+
     def int(self, name, lo=None, hi=None):
         c = z3.Int(name)
         self.inputs[name] = c
@@ -428,6 +435,9 @@ class Ctx:
                         v = z3.IntVal(rng.randint(-3, 3))
                 elif c.sort() == z3.RealSort():
                     v = realval(Fraction(rng.randint(-12, 12), 4))
+                elif z3.is_fp_sort(c.sort()):
+                    v = z3.FPVal(rng.choice([0.0, 0.5, -0.5, 0.25, -0.375, 1.0, -2.0, 3.0, 0.4999999999999999, 2.0**-53, 7.0, -7.0,
+                                             2.0**52, -(2.0**52), 2.0**32, 1e-300, 123456.0]), c.sort())
                 else:
                     continue
                 self.solver.push()
@@ -487,6 +497,9 @@ def num_value(v):
         return True
     if z3.is_false(v):
         return False
+    if z3.is_fp(v):
+        from .fp import fp_value
+        return fp_value(v)
     raise Unsupported(f"cannot read model value {v}")
 
 
@@ -612,6 +625,7 @@ def _is_cplx(o):
 class SBool:
     shape = ()
     ndim = 0
+    __iter__ = None              # scalars: not iterable (the __getitem__(()) support must not make them sequences)
 
     def __init__(s, e):
         s.e = e
@@ -702,6 +716,7 @@ class SNum:
     shape = ()
     ndim = 0
     size = 1
+    __iter__ = None              # scalars: not iterable (the __getitem__(()) support must not make them sequences)
     dtype = np.dtype(object)     # astropy's unit converters pass through anything that has a dtype
 
     def __getitem__(s, k):
@@ -913,7 +928,20 @@ class SReal(SNum):
     def is_integer(s):
         return SBool(z3.IsInt(s.e))
 
+    # trigonometric functions: uninterpreted (their argument is what the checks look at)
+    def sin(s):
+        return SReal(UF_SIN(s.e))
 
+    def cos(s):
+        return SReal(UF_COS(s.e))
+
+    def tan(s):
+        return SReal(UF_TAN(s.e))
+
+
+UF_SIN = z3.Function("sin_rad", z3.RealSort(), z3.RealSort())
+UF_COS = z3.Function("cos_rad", z3.RealSort(), z3.RealSort())
+UF_TAN = z3.Function("tan_rad", z3.RealSort(), z3.RealSort())
 numbers.Number.register(SInt)
 numbers.Number.register(SReal)
 numbers.Real.register(SReal)
@@ -924,6 +952,7 @@ class SComplex:
     shape = ()
     ndim = 0
     size = 1
+    __iter__ = None              # scalars: not iterable (the __getitem__(()) support must not make them sequences)
     dtype = np.dtype(object)
 
     def __init__(s, re, im):
@@ -1208,6 +1237,8 @@ def evalz(e, env, ufs=None):
                 return Fraction(math.cos(2 * math.pi * float(args[0])))
             if name == "sinc":
                 return Fraction(math.sin(2 * math.pi * float(args[0])))
+            if name in ("sin_rad", "cos_rad", "tan_rad"):
+                return Fraction(getattr(math, name[:3])(float(args[0])))
             if name in ufs:
                 return ufs[name](*args)
             raise KeyError(name)
